@@ -164,3 +164,23 @@ func fileOf(p *packages.Package, pos token.Pos) *ast.File {
 	}
 	return nil
 }
+
+// Instances returns the functions to verify for a contract key: the function itself, or, for a generic
+// function, every instantiation the program uses.
+func (P *Program) Instances(key string) []*ssa.Function {
+	fn := P.funcs[key]
+	if fn == nil {
+		return nil
+	}
+	if fn.TypeParams().Len() == 0 || len(fn.TypeArgs()) > 0 {
+		return []*ssa.Function{fn}
+	}
+	var out []*ssa.Function
+	for _, f := range P.funcs {
+		if f.Origin() == fn {
+			out = append(out, f)
+		}
+	}
+	sort.Slice(out, func(i, j int) bool { return FuncKey(out[i]) < FuncKey(out[j]) })
+	return out
+}
